@@ -123,6 +123,8 @@ def project_interp(run) -> dict:
             rec.update(f)
             if f["cls"] == "AlarmNode" or f["cls"] == "MacroNode":
                 rec["desc"] = tree.descendants(e["n"])
+            rec["kids"] = [c for c in tree.children.get(e["n"], []) if tree.nodes[c]["cls"] not in WS] \
+                if f["cls"] == "InjectedNode" else []
             if f["cls"] == "InterpreterCommandNode" and f["ins"] == "Wait":
                 rec["waitMs"] = _dur_ms(f["args"])
             if f["prevCls"] == "InterpreterCommandNode" and tree.nodes.get(f["prev"], {}).get("ins") == "Wait":
